@@ -88,8 +88,10 @@ func judge(run *vr.Run, sc *sess.Scenario, w *sess.World, choices []int) {
 				missing = append(missing, id)
 			}
 		}
+		// acknowledging a service message is not forbidden by the statement; naming an id the server never
+		// used at all is a wrong acknowledgement
 		for id := range w.Srv.AckedIDs {
-			if !sent[id] {
+			if !sent[id] && !w.Srv.AllSent[id] {
 				extra = append(extra, id)
 			}
 		}
@@ -104,7 +106,7 @@ func judge(run *vr.Run, sc *sess.Scenario, w *sess.World, choices []int) {
 			run.Violation(fmt.Sprintf("ack|missing|container=%v", inContainer), fmt.Sprintf("%s: %d content-related server message(s) never acknowledged: %x; server emitted %v", sc.Name, len(missing), missing, w.Srv.Emitted), rep)
 		}
 		if len(extra) > 0 {
-			run.Violation("ack|spurious", fmt.Sprintf("%s: msgs_ack names ids the server did not send as content-related: %x; emitted %v", sc.Name, extra, w.Srv.Emitted), rep)
+			run.Violation("ack|spurious", fmt.Sprintf("%s: msgs_ack names ids the server never used: %x; emitted %v", sc.Name, extra, w.Srv.Emitted), rep)
 		}
 	} else {
 		sess.JudgeCalls(run, sc, w, choices)
